@@ -9,6 +9,7 @@ import sys
 from lxml import etree
 
 import xs_lib as X
+from xs_lib import min_len_flag
 import xs_xsd as D
 from sdc11073.xml_types import dataconverters as dc
 from sdc11073.xml_types import xml_structure as xs
@@ -112,7 +113,7 @@ for cls in classes:
         vid = cids.get(X.class_key(vc), 0) if isinstance(vc, type) and issubclass(vc, X.BASES) else 0
         b = lambda x: 'true' if x else 'false'  # noqa: E731
         ps.append(f'mkProp {KIND[tn]} {"None" if slot is None else f"(Some {slot})"} {conv_of(p)} {b(p.is_optional)} '
-                  f'{b(d is not None)} {b(id(p) in sites)} {vid} {b(getattr(p, "_min_length", 0))}')
+                  f'{b(d is not None)} {b(id(p) in sites)} {vid} {b(min_len_flag(p))}')
     ct, how = idx.for_qname(getattr(cls, 'NODETYPE', None))
     order = []
     if ct is not None:
